@@ -546,6 +546,8 @@ impl Shape {
         symbol_table: &mut BTreeMap<Rc<str>, Shape>,
         seen: &mut Vec<(Rc<str>, Shape, Shape)>,
     ) -> Self {
+        #[cfg(ucg_verif)]
+        crate::verif::tick("shape::narrow");
         match (self, right) {
             // Propagate TypeErr
             (Shape::TypeErr(_, _), _) => self.clone(),
